@@ -197,4 +197,6 @@ class AbstractHelp(Component):
         return text
 
     def _format_value(self, value):  # type: (Any) -> str
-        return json.dumps(value)
+        # A default of a type json does not know (a path, a date, a decimal)
+        # is displayed the way str() shows it
+        return json.dumps(value, default=str)
